@@ -200,6 +200,9 @@ func (f *FwGUIDEntry) Put(data []byte) error {
 
 // PopulateFromBytes sets f's fields from data by interpreting data as a packed struct FwGUIDEntry.
 func (f *FwGUIDEntry) PopulateFromBytes(data []byte) (err error) {
+	if len(data) < SizeofFwGUIDEntry {
+		return fmt.Errorf("data too small for FwGUIDEntry: %d < %d", len(data), SizeofFwGUIDEntry)
+	}
 	f.Size = binary.LittleEndian.Uint16(data[0:2])
 	f.GUID, err = FromEFIGUID(data[2:SizeofFwGUIDEntry])
 	return err
@@ -225,8 +228,11 @@ func (s *SevMetadataSection) Put(data []byte) error {
 }
 
 // SevMetadataSectionFromBytes returns the structured type interpretation of the ABI format of the
-// same type.
+// same type, or nil if guidBlock is too small.
 func SevMetadataSectionFromBytes(guidBlock []byte) *SevMetadataSection {
+	if len(guidBlock) < SizeofSevMetadataSection {
+		return nil
+	}
 	return &SevMetadataSection{
 		Address: binary.LittleEndian.Uint32(guidBlock[0:4]),
 		Length:  binary.LittleEndian.Uint32(guidBlock[4:8]),
@@ -257,8 +263,12 @@ func (s *SevMetadata) Put(data []byte) error {
 	return nil
 }
 
-// SevMetadataFromBytes interprets an OVMF GUID block as SevMetadata.
+// SevMetadataFromBytes interprets an OVMF GUID block as SevMetadata. Returns nil if guidBlock is
+// too small.
 func SevMetadataFromBytes(guidBlock []byte) *SevMetadata {
+	if len(guidBlock) < SizeofSevMetadata {
+		return nil
+	}
 	return &SevMetadata{
 		Signature: binary.LittleEndian.Uint32(guidBlock[0:4]),
 		Length:    binary.LittleEndian.Uint32(guidBlock[4:8]),
@@ -288,6 +298,9 @@ func (s *MetadataOffset) Put(data []byte) error {
 
 // MetadataOffsetFromBytes interprets an OVMF GUID block as MetadataOffset.
 func MetadataOffsetFromBytes(guidBlock []byte) (*MetadataOffset, error) {
+	if len(guidBlock) < SizeofMetadataOffset {
+		return nil, fmt.Errorf("data too small for SEV metadata offset: %d < %d", len(guidBlock), SizeofMetadataOffset)
+	}
 	result := &MetadataOffset{
 		Offset: binary.LittleEndian.Uint32(guidBlock[0:4]),
 	}
@@ -415,8 +428,9 @@ func TDXMetadataFromBytes(data []byte) (*TDXMetadata, error) {
 	if err != nil {
 		return nil, fmt.Errorf("could not parse TDX metadata descriptor: %v", err)
 	}
-	expected := hdr.SectionCount * SizeofTDXMetdataSection
-	remainder := uint32(len(data) - SizeofTDXMetadataDescriptor)
+	// 64-bit arithmetic: a large section count must not wrap the size check.
+	expected := uint64(hdr.SectionCount) * SizeofTDXMetdataSection
+	remainder := uint64(len(data) - SizeofTDXMetadataDescriptor)
 	if expected > remainder {
 		return nil, fmt.Errorf("data too small for expected section count %d: %d < %d",
 			hdr.SectionCount, remainder, expected)
